@@ -37,12 +37,15 @@ MODES = {
     "Tr&&": ("ps::Tr&&", "tr"),
     "UP": ("std::unique_ptr<int>", "up"),
     "UP&&": ("std::unique_ptr<int>&&", "up"),
+    # a parameter whose own type is a reference wrapper: _k is the wrapper object, not what it refers to
+    "RW": ("std::reference_wrapper<int>", "rw"),
+    "RW&": ("std::reference_wrapper<int>&", "rw"),
 }
 MODE_NAMES = list(MODES)
 LVREF = ("int&", "intc&", "Tr&", "Trc&")            # RETURN(_k) from a T&-returning function
-ADDR = ("int&", "intc&", "int&&", "Tr&", "Trc&", "Tr&&", "UP&&")   # &_k must be the caller's object
-BYVAL = ("int", "Tr", "UP")
-WRITABLE = ("int", "int&", "int&&", "int*", "Tr", "Tr&", "Tr&&")
+ADDR = ("int&", "intc&", "int&&", "Tr&", "Trc&", "Tr&&", "UP&&", "RW&")   # &_k must be the caller's object
+BYVAL = ("int", "Tr", "UP", "RW")
+WRITABLE = ("int", "int&", "int&&", "int*", "Tr", "Tr&", "Tr&&", "RW", "RW&")
 STEALABLE = ("Tr&&", "UP", "UP&&")
 REF_RET_TYPE = {"int&": "int&", "intc&": "int const&", "Tr&": "ps::Tr&", "Trc&": "ps::Tr const&"}
 DECOY_T = "ps::Other const&"
@@ -252,6 +255,8 @@ def _value_expr(mode, k):
         return "*_%d" % k
     if f == "tr":
         return "_%d.tag" % k
+    if f == "rw":
+        return "_%d.get()" % k
     return "*_%d" % k
 
 
@@ -324,6 +329,8 @@ class _Fn:
                     out.append("_%d = %s" % (k, _wval(k)))
                 elif f == "ptr":
                     out.append("*_%d = %s" % (k, _wval(k)))
+                elif f == "rw":     # through the wrapper: the caller's integer changes, the wrapper is not re-seated
+                    out.append("_%d.get() = %s" % (k, _wval(k)))
                 else:
                     out.append("_%d.tag = %s" % (k, _wval(k)))
         return out
@@ -353,6 +360,9 @@ class _Fn:
                     out.append("ps::eq(%s, ps::sink_tr(%d).tag, %s);" % (self.id("P.s%d" % k), k, _tag(k)))
                 else:
                     out.append("ps::eq(%s, a%d.tag, %s);" % (pid, k, _wval(k) if w else _tag(k)))
+            elif family(m) == "rw":
+                out.append("ps::eq(%s, b%d, %s);" % (pid, k, _wval(k) if w else _tag(k)))
+                out.append("ps::same(%s, &a%d.get(), &b%d);" % (self.id("P.w%d" % k), k, k))
             elif m == "UP":
                 out.append("ps::chk(%s, !a%d);" % (pid, k))
                 if stolen:
@@ -399,6 +409,8 @@ def emit_driver(spec, idx, name):
             A("    int a%d = %s; int* const q%d = &a%d; (void)q%d;" % (k, _tag(k), k, k, k))
         elif f == "tr":
             A("    ps::Tr a%d(%s); ps::Tr* const q%d = &a%d; (void)q%d;" % (k, _tag(k), k, k, k))
+        elif f == "rw":
+            A("    int b%d = %s; std::reference_wrapper<int> a%d(b%d); std::reference_wrapper<int>* const q%d = &a%d; (void)q%d;" % (k, _tag(k), k, k, k, k, k))
         else:
             A("    ps::UP a%d(new int(%s)); int* const r%d = a%d.get(); ps::UP* const q%d = &a%d; (void)q%d; (void)r%d;" % (k, _tag(k), k, k, k, k, k, k))
     # capture locals: value at expectation creation -> value at the call
